@@ -102,7 +102,8 @@ def gen_world(rng, i, tier):
         w["sets"] = sets
     else:
         D = d if d != " " else rng.pick([" "])
-        lines, kinds, pairs = grammar.gen_conventional(rng, D, c, rng.randint(1, 40), cont_trail=False)
+        ql = []
+        lines, kinds, pairs = grammar.gen_conventional(rng, D, c, rng.randint(1, 40), cont_trail=False, quoted_out=ql)
         w["lines"] = [[k, l] for k, l in zip(kinds, lines)]
         if rng.chance(0.4):
             # a parsed object that is then changed through the setters (new group-less keys, new keys in existing and
@@ -115,7 +116,9 @@ def gen_world(rng, i, tier):
         # the tags may be changed on the object after it was read: write and read back with OTHER characters,
         # provided no byte of the file could be taken for them
         d2, c2 = rng.pick(["=", ":"]), rng.pick(["#", ";"])
-        text = "".join(lines) + "".join(x for st in w.get("sets_after", []) for x in st[1:] if isinstance(x, str))
+        # (text between the quotes of a value that was read quoted does not count: it is written quoted again)
+        outside = [l if n_ not in ql else l[:l.index('"')] + l[l.rindex('"') + 1:] for n_, l in enumerate(lines)]
+        text = "".join(outside) + "".join(x for st in w.get("sets_after", []) for x in st[1:] if isinstance(x, str))
         if rng.chance(0.5) and d != " " and (d2 != d or c2 != c) and (d2 == d or d2 not in text) and (c2 == c or c2 not in text):
             w["d2"], w["c2"] = d2, c2
     return w
